@@ -56,7 +56,7 @@ theorem panic_in_place (env : Env) (n : Nat) (p0 p : PP) (arg : Val) (verb : Nat
     (hnp : p.panicking = false) :
     catchPanic env (n + 1) p0 arg verb method false (.raised p payload) =
       (printArg env n
-        { (((({ p with f := p.f.clear }.w percentBang).wr verb).w "(PANIC=".toUTF8.toList).w method).w " method: ".toUTF8.toList
+        { (((({ p with f := p.f.clear }.w percentBang).wr verb).w ([0x28, 0x50, 0x41, 0x4E, 0x49, 0x43, 0x3D] /- "(PANIC=" -/ : List UInt8)).w method).w ([0x20, 0x6D, 0x65, 0x74, 0x68, 0x6F, 0x64, 0x3A, 0x20] /- " method: " -/ : List UInt8)
           with panicking := true } payload 118).bind
         fun q => .ok { ({ q with panicking := false }.wb 0x29) with
                         f := ({ q with panicking := false }.wb 0x29).f.restoreFlags p.f } := by
@@ -145,9 +145,9 @@ theorem panic_free_values_never_panic (env : Env) (hf : EnvPF env) (n : Nat) (p 
   cases h
 
 /-! Premises satisfiable: a Stringer that panics with a string, inside a slice. -/
-example : ListPB [.slice "[]interface {}".toUTF8.toList false true
-    (.cons (.meth { stringer := true } "main.S".toUTF8.toList false false false 0
-      (.safeString [0x61] (.panic (.leaf 1 .str "string".toUTF8.toList none false false))) .nil) .nil)] := by
+example : ListPB [.slice ([0x5B, 0x5D, 0x69, 0x6E, 0x74, 0x65, 0x72, 0x66, 0x61, 0x63, 0x65, 0x20, 0x7B, 0x7D] /- "[]interface {}" -/ : List UInt8) false true
+    (.cons (.meth { stringer := true } ([0x6D, 0x61, 0x69, 0x6E, 0x2E, 0x53] /- "main.S" -/ : List UInt8) false false false 0
+      (.safeString [0x61] (.panic (.leaf 1 .str ([0x73, 0x74, 0x72, 0x69, 0x6E, 0x67] /- "string" -/ : List UInt8) none false false))) .nil) .nil)] := by
   intro v hv
   simp only [List.mem_singleton] at hv
   subst hv
